@@ -101,6 +101,9 @@ def post_target(ctx, rec, with_grad=True):
     boundary: the instance's logd / gradient are wrapped by logging, fault-injectable probes that call the real bound
     methods; the reference functions are the same methods of a separately built twin."""
     prec = dict(rec, prior=rec.get("prior", "gauss_vec"), m=rec["dim"] + 1, model="matrix")
+    if rec["kind"] == "post_deconv":
+        prec.update(model="deconv", psf=["gauss", "moffat", "defocus"][rec["zseed"] % 3],
+                    dbc=["periodic", "zero", "mirror", "reflect", "nearest"][rec["zseed"] % 5])
     if rec["kind"] == "post_const":
         # the posterior is what a hierarchical joint reduces to once data and hyper-parameter are fixed: it carries the
         # evaluated hyper-prior as an additive constant (logd = logpdf + constant)
@@ -184,7 +187,7 @@ def geom_post_target(ctx, rec):
 
 def ud_target(ctx, rec, with_grad=True):
     """UserDefinedDistribution whose callables are probes.  rec: {kind, dim, zseed}."""
-    if rec["kind"] in ("post", "post_const"):
+    if rec["kind"] in ("post", "post_const", "post_deconv"):
         return post_target(ctx, rec, with_grad)
     if rec["kind"] in ("post_step", "post_mapped", "post_pde"):
         return geom_post_target(ctx, rec)
@@ -234,7 +237,13 @@ def lin_posterior(ctx, rec):
     n = rec["dim"]
     prior = _prior(rec)
     probes = {}
-    if rec.get("model", "matrix") == "matrix":
+    if rec.get("model") == "deconv":
+        # the (function-based) forward operator of the shipped 1-D deconvolution test problem; data of matching length
+        import cuqi.testproblem
+        model = cuqi.testproblem.Deconvolution1D(dim=n, PSF=rec.get("psf", "gauss"), PSF_param=2.0, PSF_size=min(3, n),
+                                                 BC=rec.get("dbc", "periodic")).model
+        y = np.random.RandomState(rec["zseed"] + 3).randn(n)
+    elif rec.get("model", "matrix") == "matrix":
         model = LinearModel(A)
     else:
         pf = Probe(ctx, "forward", lambda x: A @ np.asarray(x, float).reshape(-1))
@@ -328,7 +337,7 @@ def gen_exp_scenario(r, kind=None, dim_max=5):
     t, k = sc["target"], sc["knobs"]
     ip = [round(r.uniform(-1, 1), 3) for _ in range(dim)]
     if kind in ("MH", "CWMH", "ULA", "MALA", "NUTS"):
-        t["kind"] = r.choice(DENSITY_KINDS + ["post", "post_const"] + (["boxed", "boxed"] if kind in ("MH", "CWMH", "MALA") else [])
+        t["kind"] = r.choice(DENSITY_KINDS + ["post", "post_const", "post_deconv"] + (["boxed", "boxed"] if kind in ("MH", "CWMH", "MALA") else [])
                              + (["post_step", "post_mapped", "post_pde"] if kind in ("MH", "CWMH") else []))
         if t["kind"] == "boxed" and kind in ("MH", "CWMH") and r.random() < 0.4:
             ip = [round(v * 6, 3) for v in ip]            # possibly a start value of zero density (outside the support)
